@@ -132,24 +132,56 @@ Lemma memb_forall_eq (l1 l2 : list N) (keys : list N) : l1 = l2 ->
   forallb (fun k => memb k l1) keys = forallb (fun k => memb k l2) keys.
 Proof. intros ->. reflexivity. Qed.
 
+Definition writers_rel (W : gmap N writer) (SW : gmap N swriter) : Prop :=
+  forall id, match W !! id, SW !! id with
+             | Some w, Some sw => wrel w sw
+             | None, None => True
+             | _, _ => False
+             end.
+
+Lemma crel_build chans schans store sstore W SW :
+  chans = schans ->
+  (forall k, is_free_key k = false ->
+     default [] (default ∅ (store !! lease_of k) !! k) = default [] (sstore !! k)) ->
+  (forall n k, is_Some (default ∅ (store !! n) !! k) -> lease_of k = n) ->
+  writers_rel W SW ->
+  crel (Cluster chans store W) (Single schans sstore SW).
+Proof. intros H1 H2 H3 H4. constructor; assumption. Qed.
+
+Lemma writers_rel_insert W SW id w sw :
+  writers_rel W SW -> wrel w sw -> writers_rel (<[id := w]> W) (<[id := sw]> SW).
+Proof.
+  intros H Hw id'. destruct (decide (id' = id)) as [->|Hne].
+  - rewrite !lookup_insert. exact Hw.
+  - rewrite !lookup_insert_ne by congruence. apply H.
+Qed.
+Lemma writers_rel_delete W SW id : writers_rel W SW -> writers_rel (delete id W) (delete id SW).
+Proof.
+  intros H id'. destruct (decide (id' = id)) as [->|Hne].
+  - rewrite !lookup_delete. exact I.
+  - rewrite !lookup_delete_ne by congruence. apply H.
+Qed.
+Lemma wrel_empty gw keys auto : wrel (Writer gw keys ∅ auto) (SWriter keys [] auto).
+Proof.
+  constructor; try reflexivity.
+  - intros k _. unfold buf_of. cbn [w_buf sw_buf]. rewrite lookup_empty. reflexivity.
+  - intros n e He. unfold buf_of in He. cbn [w_buf] in He. rewrite lookup_empty in He. inversion He.
+Qed.
+
 Theorem dstep_refines c s o :
   crel c s -> (dstep c o).2 = (sstep s o).2 /\ crel (dstep c o).1 (sstep s o).1.
 Proof.
-  intros R. destruct R as [Hch Hread Hown Hwr].
+  intros R. pose proof R as [Hch Hread Hown Hwr]. fold (writers_rel (cl_writers c) (sg_writers s)) in Hwr.
   destruct o as [id gw keys auto|id f|id|id]; cbn [dstep sstep].
   - (* open *)
-    destruct keys as [|k0 keys']; [split; [reflexivity|constructor; assumption]|].
-    rewrite Hch. destruct (forallb _ (k0 :: keys')); cbn [fst snd]; [|split; [reflexivity|constructor; assumption]].
-    split; [reflexivity|]. constructor; cbn [cl_chans sg_chans cl_store sg_store cl_writers sg_writers]; try assumption.
-    intros id'. destruct (decide (id' = id)) as [->|Hne].
-    + rewrite !lookup_insert. constructor; cbn; try reflexivity.
-      * intros k _. unfold buf_of. cbn. rewrite lookup_empty. reflexivity.
-      * intros n e He. unfold buf_of in He. cbn in He. rewrite lookup_empty in He. inversion He.
-    + rewrite !lookup_insert_ne by congruence. apply Hwr.
+    destruct keys as [|k0 keys']; [split; [reflexivity|exact R]|].
+    rewrite Hch. destruct (forallb _ (k0 :: keys')); cbn [fst snd]; [|split; [reflexivity|exact R]].
+    split; [reflexivity|]. apply crel_build; try assumption.
+    apply writers_rel_insert; [exact Hwr|apply wrel_empty].
   - (* write *)
     pose proof (Hwr id) as Hw.
     destruct (cl_writers c !! id) as [w|] eqn:Ew, (sg_writers s !! id) as [sw|] eqn:Es; try contradiction;
-      [|split; [reflexivity|constructor; assumption]].
+      [|split; [reflexivity|exact R]].
     destruct Hw as [Hk Ha Hb Ho]. rewrite <- Hk.
     destruct (forallb (fun e => memb e.1 (w_keys w)) f) eqn:Hval.
     + set (buf := buf_append (w_buf w) (route (w_gw w) (w_keys w) f)).
@@ -163,48 +195,32 @@ Proof.
       assert (Hbown : forall n e, e ∈ default [] (buf !! n) -> lease_of e.1 = n).
       { intros n e He. unfold buf in He. rewrite buf_append_lookup in He.
         apply elem_of_app in He as [He|He]; [apply (Ho n e He)|eapply route_only; exact He]. }
-      rewrite <- Ha. destruct (w_auto w); cbn [fst snd].
+      rewrite <- Ha. destruct (w_auto w) eqn:Eauto; cbn [fst snd].
       * split; [reflexivity|].
         destruct (commit_related c s buf (sw_buf sw ++ keep_leased f) Hread Hown Hbuf Hbown) as [C1 C2].
-        constructor; cbn [cl_chans sg_chans cl_store sg_store cl_writers sg_writers]; try assumption.
-        -- intros k Hkf. unfold cluster_read, single_read. cbn. apply C1, Hkf.
-        -- intros id'. destruct (decide (id' = id)) as [->|Hne].
-           ++ rewrite !lookup_insert. constructor; cbn; try reflexivity; try assumption.
-              ** intros k _. unfold buf_of. cbn. rewrite lookup_empty. reflexivity.
-              ** intros n e He. unfold buf_of in He. cbn in He. rewrite lookup_empty in He. inversion He.
-           ++ rewrite !lookup_insert_ne by congruence. apply Hwr.
-      * split; [reflexivity|].
-        constructor; cbn [cl_chans sg_chans cl_store sg_store cl_writers sg_writers]; try assumption.
-        intros id'. destruct (decide (id' = id)) as [->|Hne].
-        -- rewrite !lookup_insert. constructor; cbn; try reflexivity; try assumption.
-        -- rewrite !lookup_insert_ne by congruence. apply Hwr.
-    + cbn [fst snd]. split; [reflexivity|].
-      constructor; cbn [cl_chans sg_chans cl_store sg_store cl_writers sg_writers]; try assumption.
-      intros id'. destruct (decide (id' = id)) as [->|Hne].
-      * rewrite !lookup_delete. exact I.
-      * rewrite !lookup_delete_ne by congruence. apply Hwr.
+        apply crel_build; try assumption.
+        apply writers_rel_insert; [exact Hwr|]. rewrite Hk. apply wrel_empty.
+      * split; [reflexivity|]. apply crel_build; try assumption.
+        apply writers_rel_insert; [exact Hwr|].
+        constructor; cbn [w_keys sw_keys w_auto sw_auto]; try assumption; try reflexivity.
+        -- intros k Hkf. unfold buf_of. cbn [w_buf sw_buf]. apply Hbuf, Hkf.
+        -- intros n e He. unfold buf_of in He. cbn [w_buf] in He. apply (Hbown n e He).
+    + cbn [fst snd]. split; [reflexivity|]. apply crel_build; try assumption.
+      apply writers_rel_delete, Hwr.
   - (* commit *)
     pose proof (Hwr id) as Hw.
     destruct (cl_writers c !! id) as [w|] eqn:Ew, (sg_writers s !! id) as [sw|] eqn:Es; try contradiction;
-      [|split; [reflexivity|constructor; assumption]].
+      [|split; [reflexivity|exact R]].
     destruct Hw as [Hk Ha Hb Ho]. cbn [fst snd]. split; [reflexivity|].
     destruct (commit_related c s (w_buf w) (sw_buf sw) Hread Hown Hb Ho) as [C1 C2].
-    constructor; cbn [cl_chans sg_chans cl_store sg_store cl_writers sg_writers]; try assumption.
-    + intros k Hkf. unfold cluster_read, single_read. cbn. apply C1, Hkf.
-    + intros id'. destruct (decide (id' = id)) as [->|Hne].
-      * rewrite !lookup_insert. constructor; cbn; try reflexivity; try assumption.
-        -- intros k _. unfold buf_of. cbn. rewrite lookup_empty. reflexivity.
-        -- intros n e He. unfold buf_of in He. cbn in He. rewrite lookup_empty in He. inversion He.
-      * rewrite !lookup_insert_ne by congruence. apply Hwr.
+    apply crel_build; try assumption.
+    apply writers_rel_insert; [exact Hwr|]. rewrite Hk, Ha. apply wrel_empty.
   - (* close *)
     pose proof (Hwr id) as Hw.
     destruct (cl_writers c !! id) as [w|] eqn:Ew, (sg_writers s !! id) as [sw|] eqn:Es; try contradiction;
-      [|split; [reflexivity|constructor; assumption]].
-    cbn [fst snd]. split; [reflexivity|].
-    constructor; cbn [cl_chans sg_chans cl_store sg_store cl_writers sg_writers]; try assumption.
-    intros id'. destruct (decide (id' = id)) as [->|Hne].
-    + rewrite !lookup_delete. exact I.
-    + rewrite !lookup_delete_ne by congruence. apply Hwr.
+      [|split; [reflexivity|exact R]].
+    cbn [fst snd]. split; [reflexivity|]. apply crel_build; try assumption.
+    apply writers_rel_delete, Hwr.
 Qed.
 
 Fixpoint dresults (c : cluster) (ops : list dop) : list dres :=
